@@ -88,6 +88,9 @@ func c02MakeLog(name string, chunks [][]string, hours []int, gaps []int) c02Log 
 				e.Type, e.Session, e.Data = robust.DeleteSession, robust.Id{Id: sess[line[1:]]}, "gone"
 			default:
 				who, data, _ := strings.Cut(line, ": ")
+				for name, at := range sess {
+					data = strings.ReplaceAll(data, "{"+name+"}", fmt.Sprintf("{sess:%d}", at))
+				}
 				if strings.HasPrefix(who, "!") {
 					// a message which crashed the server before and was marked so it is skipped
 					who = who[1:]
@@ -129,6 +132,9 @@ func c02Logs(thorough bool) []c02Log {
 		// a marked message of death is the last message of its session in what gets folded: its
 		// duplicate-detection marker has to survive the fold
 		c02MakeLog("death", [][]string{setup, {"A: JOIN #c", "+B", "B: NICK b", "!A: PRIVMSG #c :boom"}, {"B: USER b 0 * :B", "B: JOIN #c"}}, []int{0, 1, 2}, []int{2, 0, 0}),
+		// a ban on a session host: the mask is stored twice (host pattern and the session's address at that
+		// moment); both have to come back from a snapshot state
+		c02MakeLog("host-ban", [][]string{setup, join, {"A: MODE #c +b *!*@robust/{B}", "B: PART #c", "A: MODE #c +b nobody!*@*"}, {"A: TOPIC #c :later"}}, []int{0, 1, 2, 100}, []int{2, 0, 0, 0}),
 		// all new: nothing may ever be folded
 		c02MakeLog("all-new", [][]string{setup, join}, []int{100, 101}, []int{2, 0}),
 	}
@@ -143,7 +149,16 @@ func c02Logs(thorough bool) []c02Log {
 
 // c02Msg translates an entry from raft-index space (in which the logs are written: Id = raft index,
 // Session = index of the CreateSession entry) into message-id space (ids = MessageOffset + index).
+var c02SessRe = regexp.MustCompile(`\{sess:(\d+)\}`)
+
 func c02Msg(e ircserver.VEntry) ircserver.VEntry {
+	// "{sess:N}" in a line stands for the host form of the session created at raft index N (robust/0x<id>)
+	if strings.Contains(e.Data, "{sess:") {
+		e.Data = c02SessRe.ReplaceAllStringFunc(e.Data, func(m string) string {
+			n, _ := strconv.ParseUint(c02SessRe.FindStringSubmatch(m)[1], 10, 64)
+			return fmt.Sprintf("0x%x", robust.IdFromRaftIndex(n))
+		})
+	}
 	e.Id = robust.IdFromRaftIndex(e.Id)
 	if e.Session.Id != 0 {
 		e.Session.Id = robust.IdFromRaftIndex(e.Session.Id)
@@ -646,12 +661,13 @@ func TestVerifC02(t *testing.T) {
 		pb  bool
 	}
 	var jobs []job
-	encs := []bool{true}
-	if thorough {
-		encs = []bool{true, false}
-	}
+	encs := []bool{true, false}
 	for _, pb := range encs {
 		for _, l := range c02Logs(thorough) {
+			// the legacy JSON encoding: all logs in the thorough tier, two of them in the quick tier
+			if !pb && !thorough && l.Name != "old-new" && l.Name != "gaps" {
+				continue
+			}
 			for _, s := range c02Schedules(l, length) {
 				jobs = append(jobs, job{l, s, pb})
 			}
